@@ -20,6 +20,11 @@
  * batching.
  */
 #define URCU_WAIT_ATTEMPTS 1000
+#ifdef URCU_VERIF
+#undef URCU_WAIT_ATTEMPTS
+#define URCU_WAIT_ATTEMPTS	\
+	((unsigned int) urcu_verif_knob(URCU_VERIF_KNOB_WAIT_ATTEMPTS, 1000))
+#endif
 
 enum urcu_wait_state {
 	/* URCU_WAIT_WAITING is compared directly (futex compares it). */
